@@ -40,6 +40,8 @@ def _ranges(pred):
 _WS_RANGES = _ranges(str.isspace)
 _NUM_RANGES = _ranges(str.isnumeric)
 _DIGIT_RANGES = _ranges(str.isdigit)
+_ALPHA_RANGES = _ranges(str.isalpha)
+_ALNUM_RANGES = _ranges(str.isalnum)
 _CASED_NONASCII = _ranges(lambda ch: ord(ch) >= 128 and (ch.lower() != ch or ch.upper() != ch))
 
 
@@ -326,6 +328,12 @@ class SymStr(str):
 
     def isnumeric(self):
         return len(self.items) > 0 and all(self._item_in(i, _NUM_RANGES, str.isnumeric) for i in self.items)
+
+    def isalpha(self):
+        return len(self.items) > 0 and all(self._item_in(i, _ALPHA_RANGES, str.isalpha) for i in self.items)
+
+    def isalnum(self):
+        return len(self.items) > 0 and all(self._item_in(i, _ALNUM_RANGES, str.isalnum) for i in self.items)
 
     def isdigit(self):
         return len(self.items) > 0 and all(self._item_in(i, _DIGIT_RANGES, str.isdigit) for i in self.items)
